@@ -263,3 +263,136 @@ Proof.
   - intros n m k Hn _. apply (plain_not_cand (names es)); assumption.
   - intros m k _ Hin. apply (plain_not_cand reserved (cand m k) m k Pr Hin). reflexivity.
 Qed.
+
+(* ---------- local variables ---------- *)
+(* how many of the locals already named had this name and were renamed *)
+Fixpoint occ (used0 : list string) (done : list (N * string)) (n : string) : N :=
+  match done with
+  | [] => 0%N
+  | (_, m) :: r => ((if String.eqb m n && in_str m used0 then 1 else 0) + occ used0 r n)%N
+  end.
+
+(* the closed form: a local whose name is taken gets name_j, j counting the earlier renamed locals of that name *)
+Fixpoint closed_locals (f : string -> string) (used0 : list string) (done locals : list (N * string)) : list (N * string) :=
+  match locals with
+  | [] => []
+  | (id, n) :: r =>
+      (id, if in_str n used0 then cand (f n) (occ used0 done n) else f n) :: closed_locals f used0 ((id, n) :: done) r
+  end.
+
+Definition LocalsFresh (locals : list (N * string)) (used0 : list string) : Prop :=
+  (forall n m k, In n (map snd locals) -> n <> cand m k) /\
+  (forall n k, In n (map snd locals) -> ~ In (cand n k) used0).
+
+Lemma assign_locals_closed (S : list string) (all used0 : list string) :
+  (forall n m k, In n S -> n <> cand m k) ->
+  (forall n k, In n S -> ~ In (cand n k) used0) ->
+  incl all S ->
+  forall locals done used out,
+    incl (map snd locals) S ->
+    (forall n, In n S -> in_str n used = in_str n used0) ->
+    (forall n k, In n S -> (In (cand n k) used <-> (k < occ used0 done n)%N)) ->
+    (forall n, (N.to_nat (occ used0 done n) + List.length used0 <= List.length used)%nat) ->
+    assign_locals locals all used out = Some (rev out ++ closed_locals (fun x => x) used0 done locals)%list.
+Proof.
+  intros HA HB Hall.
+  induction locals as [|[id n] r IH]; intros done used out Hin I1 I2 I3; cbn [NameGen.assign_locals closed_locals].
+  - rewrite app_nil_r. reflexivity.
+  - assert (Hn : In n S) by (apply Hin; left; reflexivity).
+    assert (Hr : incl (map snd r) S) by (intros x Hx; apply Hin; right; exact Hx).
+    rewrite (I1 n Hn). destruct (in_str n used0) eqn:U.
+    + set (j := occ used0 done n).
+      assert (F : find_free (fun c => negb (in_str c all) && negb (in_str c used)) n 0
+                    (Datatypes.S (List.length all + List.length used)) = Some (cand n j)).
+      { assert (E : cand n j = cand n (0 + N.of_nat (N.to_nat j))) by (f_equal; lia). rewrite E.
+        apply find_free_first.
+        - intros i Hi. apply andb_false_iff. right. apply negb_false_iff, in_str_In. apply (I2 n _ Hn). unfold j in Hi. lia.
+        - apply andb_true_iff. split; apply negb_true_iff, in_str_false.
+          + intros Hc. apply (HA _ n (0 + N.of_nat (N.to_nat j))%N (Hall _ Hc)). reflexivity.
+          + rewrite (I2 n _ Hn). fold j. lia.
+        - specialize (I3 n). fold j in I3. lia. }
+      rewrite F.
+      rewrite (IH ((id, n) :: done) (cand n j :: used) ((id, cand n j) :: out) Hr).
+      * cbn [rev]. rewrite <- app_assoc. reflexivity.
+      * intros m Hm. cbn [in_str existsb]. fold (in_str m used).
+        replace (String.eqb m (cand n j)) with false; [apply I1; exact Hm|].
+        symmetry. apply String.eqb_neq. apply HA. exact Hm.
+      * intros m k Hm. cbn [In occ]. rewrite (I2 m k Hm). rewrite U, andb_true_r.
+        destruct (String.eqb n m) eqn:E.
+        -- apply String.eqb_eq in E. subst m. fold j. split.
+           ++ intros [Hc|Hlt]; [apply cand_inj in Hc; lia|lia].
+           ++ intros Hlt. destruct (N.eq_dec k j) as [->|Ne]; [left; reflexivity|right; lia].
+        -- apply String.eqb_neq in E. split.
+           ++ intros [Hc|Hlt]; [apply cand_inj2 in Hc as [Hc _]; congruence|lia].
+           ++ intros Hlt. right. lia.
+      * intros m. cbn [occ List.length]. specialize (I3 m). destruct (String.eqb n m && in_str n used0); lia.
+    + rewrite (IH ((id, n) :: done) used ((id, n) :: out) Hr).
+      * cbn [rev]. rewrite <- app_assoc. reflexivity.
+      * exact I1.
+      * intros m k Hm. cbn [occ]. rewrite U, andb_false_r. rewrite (I2 m k Hm). reflexivity.
+      * intros m. cbn [occ]. rewrite U, andb_false_r. apply I3.
+Qed.
+
+Theorem assign_locals_fresh locals used0 :
+  LocalsFresh locals used0 ->
+  assign_locals locals (map snd locals) used0 [] = Some (closed_locals (fun x => x) used0 [] locals).
+Proof.
+  intros [HA HB].
+  rewrite (assign_locals_closed (map snd locals) (map snd locals) used0 HA HB (incl_refl _) locals [] used0 []).
+  - reflexivity.
+  - apply incl_refl.
+  - intros n _. reflexivity.
+  - intros n k Hn. cbn [occ]. split; [intros H; exfalso; apply (HB n k Hn H)|lia].
+  - intros n. cbn. lia.
+Qed.
+
+(* renaming the locals *)
+Definition ren_locals (f : string -> string) (locals : list (N * string)) : list (N * string) :=
+  map (fun p => (fst p, f (snd p))) locals.
+
+Lemma occ_ren f used0 used0' (S : list string) :
+  (forall a b, In a S -> In b S -> f a = f b -> a = b) ->
+  (forall n, In n S -> in_str (f n) used0' = in_str n used0) ->
+  forall done n, incl (map snd done) S -> In n S ->
+  occ used0' (ren_locals f done) (f n) = occ used0 done n.
+Proof.
+  intros Hinj Hmem. induction done as [|[id m] r IH]; intros n Hd Hn; [reflexivity|].
+  cbn [ren_locals map occ fst snd].
+  assert (Hm : In m S) by (apply Hd; left; reflexivity).
+  rewrite (Hmem m Hm). fold (ren_locals f r). rewrite (IH n (fun x Hx => Hd x (or_intror Hx)) Hn).
+  replace (String.eqb (f m) (f n)) with (String.eqb m n); [reflexivity|].
+  destruct (String.eqb m n) eqn:E.
+  - apply String.eqb_eq in E. subst. symmetry. apply String.eqb_refl.
+  - symmetry. apply String.eqb_neq. intros Hf. apply String.eqb_neq in E. apply E. apply Hinj; assumption.
+Qed.
+
+Lemma closed_locals_ren f used0 used0' (S : list string) :
+  (forall a b, In a S -> In b S -> f a = f b -> a = b) ->
+  (forall n, In n S -> in_str (f n) used0' = in_str n used0) ->
+  forall locals done, incl (map snd done) S -> incl (map snd locals) S ->
+  closed_locals (fun x => x) used0' (ren_locals f done) (ren_locals f locals) = closed_locals f used0 done locals.
+Proof.
+  intros Hinj Hmem. induction locals as [|[id n] r IH]; intros done Hd Hl; [reflexivity|].
+  cbn [ren_locals map closed_locals fst snd].
+  assert (Hn : In n S) by (apply Hl; left; reflexivity).
+  rewrite (Hmem n Hn). fold (ren_locals f done). rewrite (occ_ren f used0 used0' S Hinj Hmem done n Hd Hn).
+  f_equal. fold (ren_locals f r).
+  change ((id, f n) :: ren_locals f done) with (ren_locals f ((id, n) :: done)).
+  apply IH; [|intros x Hx; apply Hl; right; exact Hx].
+  intros x [<-|Hx]; [exact Hn|apply Hd; exact Hx].
+Qed.
+
+(* the locals and the renamed locals: a local that kept its name keeps the renamed name, the j-th renamed local of a
+   name n, which got n_j, gets (f n)_j *)
+Theorem rename_locals_equivariant f locals used0 used0' :
+  LocalsFresh locals used0 -> LocalsFresh (ren_locals f locals) used0' ->
+  (forall a b, In a (map snd locals) -> In b (map snd locals) -> f a = f b -> a = b) ->
+  (forall n, In n (map snd locals) -> in_str (f n) used0' = in_str n used0) ->
+  assign_locals locals (map snd locals) used0 [] = Some (closed_locals (fun x => x) used0 [] locals) /\
+  assign_locals (ren_locals f locals) (map snd (ren_locals f locals)) used0' [] = Some (closed_locals f used0 [] locals).
+Proof.
+  intros F1 F2 Hinj Hmem. split; [apply assign_locals_fresh; exact F1|].
+  rewrite (assign_locals_fresh _ _ F2).
+  rewrite <- (closed_locals_ren f used0 used0' (map snd locals) Hinj Hmem locals [] (fun x (H : In x []) => match H with end) (incl_refl _)).
+  reflexivity.
+Qed.
